@@ -380,4 +380,36 @@ theorem adts_roundtrip (a : ADTS) (h : AdtsDom a) (junk tail : Bytes) (hj : IsBy
   simp
   omega
 
+/-! ## the search window is exactly 188 bytes -/
+
+theorem syncSearch_no_ff : ∀ (n : Nat) (junk rest : Bytes) (st : SyncState) (k : Nat),
+    st.sync2 ≠ 0xff → st.found = false → st.r = mkR k (junk ++ rest) → junk.length = n →
+    (∀ b ∈ junk, b < 255) →
+    ∃ k', (syncSearch n st).r = mkR k' rest ∧ (syncSearch n st).found = false := by
+  intro n
+  induction n with
+  | zero =>
+    intro junk rest st k _ hf hr hl _
+    have hj : junk = [] := List.eq_nil_of_length_eq_zero hl
+    subst hj
+    exact ⟨k, by simpa [syncSearch] using hr, by simpa [syncSearch] using hf⟩
+  | succ n ih =>
+    intro junk rest st k h2 hf hr hl hb
+    match junk, hl, hb with
+    | b :: junk', hl, hb =>
+      have hb0 : b < 255 := hb b (by simp)
+      have hbm : b % 256 = b := by omega
+      have hne : ¬ b = 0xff := by omega
+      rw [syncSearch_succ_nff n st h2, hr]
+      simp only [List.cons_append, read_byte, hbm, hne, if_false]
+      exact ih junk' rest _ (k + 1) h2 hf rfl (by simpa using hl) (fun x hx => hb x (by simp [hx]))
+
+/-- 188 junk bytes without 0xff in front: no sync word is found whatever follows (the 0..187 window is tight) -/
+theorem adts_beyond_window (junk rest : Bytes) (hl : junk.length = 188) (hb : ∀ b ∈ junk, b < 255) :
+    decodeADTS (junk ++ rest) = .error .noSync := by
+  obtain ⟨k', hr, hf⟩ := syncSearch_no_ff 188 junk rest { r := { rest := junk ++ rest } } 0 (by simp) rfl
+    (by simp [mkR]) hl hb
+  unfold decodeADTS
+  simp [hr, hf, mkR]
+
 end Mp4ff.Aac
